@@ -82,7 +82,7 @@ def row_plan(t: catalogue.T, row, i: int, rng: random.Random):
         p.idx = _b(row['idx'])
     p.srcs = [t.new(j) for j in range(row['k'])]
     p.codeform = CODEFORMS[i % 3] if t.et in ('expr', 'target', 'stmt') else ('src' if i % 2 else 'fst')
-    if t.et in ('arglike', 'cmpelt', 'mmapelt', 'attrelt', 'dictelt', 'identifier'):
+    if t.et in ('arglike', 'cmpelt', 'mmapelt', 'attrelt', 'dictelt', 'identifier', 'argelt'):
         p.codeform = 'src'
     p.opts = dict(OPTS[i % len(OPTS)])
     p.quant, p.lo, p.length = 'list', t.lo, nvis
